@@ -25,6 +25,11 @@ pub struct Case {
     pub start_t: u32,
     /// frames per emulate_frames call
     pub calls: Vec<u8>,
+    /// 0 = no tape; 1 = a well-formed tape is playing all along; 2 = a playing tape whose first
+    /// block is empty (process_clocks reports InvalidTapFile once, emulate_frames returns Err and
+    /// the host carries on). Programs of such cases contain no port reads (EAR is not modelled).
+    #[serde(default)]
+    pub tape: u8,
 }
 
 const COUNTER: u16 = 0xB000;
@@ -69,13 +74,35 @@ fn filler() -> impl Strategy<Value = Vec<u8>> {
     .prop_map(|v| v.into_iter().flatten().collect())
 }
 
+/// Programs for the runs with a tape: no port reads (the reference has no EAR input).
+pub fn tape_case_strategy(max_frames: u8) -> impl Strategy<Value = Case> {
+    (case_strategy_with(max_frames, false), 1u8..3).prop_map(|(mut c, tape)| {
+        c.tape = tape;
+        c
+    })
+}
+
 pub fn case_strategy(max_frames: u8) -> impl Strategy<Value = Case> {
+    case_strategy_with(max_frames, true)
+}
+
+fn case_strategy_with(max_frames: u8, port_reads: bool) -> impl Strategy<Value = Case> {
+    let blk = move || {
+        block().prop_map(move |b| {
+            let reads = b.windows(2).any(|w| w == [0xDB, 0xFE] || w == [0xED, 0x78]);
+            if reads && !port_reads {
+                vec![0x00u8]
+            } else {
+                b
+            }
+        })
+    };
     (
         prop_oneof![Just(Machine::K48), Just(Machine::K128)],
         0u8..3,
         0u8..8,
         prop_oneof![
-            3 => proptest::collection::vec(block(), 1..=40).prop_map(|v| v.into_iter().flatten().collect::<Vec<u8>>()),
+            3 => proptest::collection::vec(blk(), 1..=40).prop_map(|v| v.into_iter().flatten().collect::<Vec<u8>>()),
             // HALT-synchronised main loop: the handler starts at T = 0..3 of every frame
             1 => filler().prop_map(|mut f| { f.extend_from_slice(&[0xFB, 0x76]); f }),
         ],
@@ -109,6 +136,7 @@ pub fn case_strategy(max_frames: u8) -> impl Strategy<Value = Case> {
             iff,
             start_t,
             calls,
+            tape: 0,
         })
 }
 
@@ -187,10 +215,45 @@ pub fn check(c: &Case, rec: &mut Rec) -> Result<(), String> {
     let mut target = 0u64;
     let mut straddles = 0u64;
     let mut groups = 0u64;
+    if c.tape % 3 != 0 {
+        use crate::formats::tap;
+        use crate::host::{DynAsset, MemAsset};
+        let good = tap::block(0xFF, &[1, 2, 3], true);
+        let mut image = Vec::new();
+        if c.tape % 3 == 2 {
+            image.extend_from_slice(&[0x00, 0x00]);
+        }
+        image.extend_from_slice(&tap::write(&[good.clone(), good]));
+        e.load_tape(rustzx_core::host::Tape::Tap(DynAsset::new(MemAsset::new(image)))).map_err(|x| format!("load_tape: {:?}", x))?;
+        e.play_tape();
+        rec.class(if c.tape % 3 == 2 { "tape-with-an-empty-block-playing" } else { "tape-playing" });
+    }
+    let mut tape_errors = 0u32;
     for (k, n) in c.calls.iter().enumerate() {
-        e.set_speed(EmulationMode::FrameCount(*n as usize));
-        e.emulate_frames(LONG).map_err(|x| format!("emulate_frames: {:?}", x))?;
         target += *n as u64;
+        // a tape error makes emulate_frames return early; the host carries on with what is left
+        let mut guard = 0;
+        loop {
+            let done = e.verif_total_frames() - frames0;
+            if done >= target {
+                break;
+            }
+            e.set_speed(EmulationMode::FrameCount((target - done) as usize));
+            match e.emulate_frames(LONG) {
+                Ok(_) => {}
+                Err(x) => {
+                    tape_errors += 1;
+                    if c.tape % 3 != 2 || tape_errors > 4 {
+                        return Err(format!("emulate_frames: {:?}", x));
+                    }
+                    rec.class("emulate_frames-returned-a-tape-error-and-the-host-carried-on");
+                }
+            }
+            guard += 1;
+            if guard > 16 {
+                return Err("harness: emulate_frames does not make progress".into());
+            }
+        }
         // model: run to the emulator's position. The emulator returns at some instruction boundary
         // after the n-th frame end (which one is emulate()'s business); the model steps up to the
         // same emulated time and, if the boundaries do not coincide, both sides catch up.
@@ -356,6 +419,7 @@ pub fn run(run: &mut Run) {
     run.enumerate("int-window-edges", edges, true, check_edge);
     run.explore("programs", t.pick(2_400, 60_000), || case_strategy(12), check);
     run.explore("long-runs", t.pick(64, 2_000), || case_strategy(200), check);
+    run.explore("programs-with-a-tape-playing", t.pick(600, 20_000), || tape_case_strategy(8), check);
 }
 
 pub fn replay(run: &mut Run, phase: &str, case: &serde_json::Value) -> Result<(), String> {
@@ -366,7 +430,7 @@ pub fn replay(run: &mut Run, phase: &str, case: &serde_json::Value) -> Result<()
 }
 
 pub const LEVEL: &str = "exploration";
-pub const RULE: &str = "case = machine x program (loop of 1..40 generated blocks: ALU, loads, stack, HALT, EI/DI, DJNZ delays, LDIR, contended screen traffic, ULA port I/O) placed in uncontended, contended or paged RAM x interrupt handler (short filler+[EI]+RET that may re-enter within one pulse, or a self-counting handler of 0..1200 NOPs) x IM 0/1/2 x start T-state x 1..6 emulate_frames calls of 1..200 frames each; after EVERY call the emulator's (frame counter, frame clock, registers, halted) must equal the reference machine, whose clock is a single monotone T-state counter (frame = T div length, INT asserted iff T mod length < 32); all RAM compared at the end. evaluations = emulate_frames calls compared. non-trivial = run of >= 2 frames in which >= 1 instruction straddled a frame end with non-zero overrun; distinct = hash of the case";
+pub const RULE: &str = "case = machine x program (loop of 1..40 generated blocks: ALU, loads, stack, HALT, EI/DI, DJNZ delays, LDIR, contended screen traffic, ULA port I/O) placed in uncontended, contended or paged RAM x interrupt handler (short filler+[EI]+RET that may re-enter within one pulse, or a self-counting handler of 0..1200 NOPs) x IM 0/1/2 x start T-state x 1..6 emulate_frames calls of 1..200 frames each; after EVERY call the emulator's (frame counter, frame clock, registers, halted) must equal the reference machine, whose clock is a single monotone T-state counter (frame = T div length, INT asserted iff T mod length < 32); all RAM compared at the end. programs-with-a-tape-playing: the same with a tape playing in real time (programs without port reads), in half of the cases a tape whose first block is empty, so that emulate_frames returns a tape error once and the host carries on with the remaining frames — time must be conserved all the same. evaluations = emulate_frames calls compared. non-trivial = run of >= 2 frames in which >= 1 instruction straddled a frame end with non-zero overrun; distinct = hash of the case";
 pub const ASSUMPTIONS: &[&str] = &[
     "reference Z80 + contention model trusted (calibration, C03, C04)",
     "programs contain no prefix chains and no reads from unclaimed ports, so one emulate() call = optional interrupt entry + one instruction",
